@@ -209,6 +209,30 @@ def real_prim_case(pterm):
 # --------------------------------------------------------------------------
 # judge one case given the Lean replies
 # --------------------------------------------------------------------------
+def pc_item_faults(b: bytes):
+    """PS3.8 Tables 9-13 / 9-18, checked on the bytes alone: a Presentation Context Item (RQ) holds exactly one Abstract
+    Syntax Sub-item and at least one Transfer Syntax Sub-item; a Presentation Context Item (AC) holds exactly one
+    Transfer Syntax Sub-item, whatever its Result/Reason."""
+    out = []
+    if len(b) < 74 or b[0] not in (1, 2):
+        return out
+    pos = 74
+    while pos + 4 <= len(b):
+        t, n = b[pos], int.from_bytes(b[pos + 2 : pos + 4], "big")
+        body = b[pos + 4 : pos + 4 + n]
+        if t in (0x20, 0x21):
+            subs, q = [], 4
+            while q + 4 <= len(body):
+                subs.append(body[q])
+                q += 4 + int.from_bytes(body[q + 2 : q + 4], "big")
+            if t == 0x20 and (subs.count(0x30) != 1 or subs.count(0x40) < 1):
+                out.append(f"context {body[0]} (RQ): {subs.count(0x30)} abstract syntax / {subs.count(0x40)} transfer syntax sub-items")
+            if t == 0x21 and subs.count(0x40) != 1:
+                out.append(f"context {body[0]} (AC, result {body[2]}): {subs.count(0x40)} transfer syntax sub-items, PS3.8 Table 9-18 prescribes one")
+        pos += 4 + n
+    return out
+
+
 def judge(ctx, case, o, lean):
     """lean: dict with enc, props, dec, lengths (+ fromprim, toprim)."""
     term = o["term"]
@@ -223,6 +247,11 @@ def judge(ctx, case, o, lean):
     if "pterm" in o:
         if lean["fromprim"] != term:
             ctx.diff(case, term, lean["fromprim"], "from_primitive: " + diff_path(term, lean["fromprim"]))
+        # on the implementation alone: the PDU built from a primitive has the items PS3.8 prescribes
+        if "bytes" in o and o["pterm"][0] in ("assocrq", "assocac"):
+            ok_prim = all(len(c[2]) >= 1 for c in o["pterm"][4]) if isinstance(o["pterm"][4], list) else True
+            for fault in (pc_item_faults(o["bytes"]) if ok_prim else []):
+                ctx.fail(f"c01:from-primitive-layout:{o['pterm'][0]}", f"{o['pterm'][0]} primitive -> PDU: {fault}", case)
     # ---- encode ------------------------------------------------------------
     if "encode_exc" in o:
         if wf:
